@@ -11,12 +11,22 @@ registered listener exactly once, and overlapping reload triggers neither apply 
 lose one.
 
 The model (`Model/Reload.lean`) takes the *shape* of `Reload` as parameters: `aw` (does `Reload`
-tolerate the warnings-only error of `newFileConfig`, as `NewConfig` does) and `Lock` (`asCoded`:
-hashes compared outside any lock; `cas`: compare-and-assign in one critical section; `serial`: the
-whole `Reload` under one mutex).  The code as it is: `aw = false`, `Lock.asCoded`.  For that shape
-`reload_iff` and `concurrent_once` are **refuted** below by kernel-checked witnesses and the parts
-that do hold are proved (`…_partial`); for the repaired shape (`aw = true`, `Lock.serial`) the full
-statements are proved (`…_fixed`).
+tolerate the warnings-only error of `newFileConfig`, as `NewConfig` does) and `Lock`
+(`cas` = `Lock.asCoded`: `f.mux` taken before the hash comparison and held through the assignment, the
+code as it is since commit 8a38f8f; `unlocked`: the shape before that commit; `serial`: the whole
+`Reload` under one mutex).  The code as it is: `aw = false`, `Lock.asCoded`.
+
+Where the current code stands:
+* `reload_iff` — **refuted** (`reload_iff_refuted`: a warnings-only config is never reloaded);
+  `reload_iff_partial` holds.
+* `concurrent_once` — **refuted** (`concurrent_once_refuted`): reading the files and `newFileConfig`
+  happen before the lock, so a stale snapshot is still assigned after a newer one
+  (`concurrent_lost_update_witness`: stale config left running; `concurrent_stale_reapply_witness`: a
+  content written once is assigned and notified twice).  **Gone** with commit 8a38f8f: two triggers
+  that read the *same* file both assigning it (`concurrent_no_repeat_partial` for every schedule;
+  `concurrent_double_apply_before_8a38f8f` records the old behaviour).
+* `notify_once`, `reject_keeps_old` — hold, sequentially and on every schedule.
+* repaired shape (`aw = true`, `Lock.serial`): everything is proved (`…_fixed`).
 -/
 namespace Refinery.Props.C27
 open Refinery.Model.Reload Refinery.Lemmas.Reload
@@ -282,14 +292,32 @@ C and returns; trigger 0 then compares B against C, "changed", and assigns the s
 def lostUpdateSchedule : List Ev :=
   [.wc (.ok 2 0), .step 0, .step 0, .wc (.ok 3 0), .step 1, .step 1, .step 1, .step 1, .step 0, .step 0]
 
-/-- as coded, the double-apply schedule assigns file version 1 twice and notifies the listener twice -/
-theorem concurrent_double_apply_witness :
-    (crun false .asCoded (cinit 2 1 f0) doubleApplySchedule).apvers = [1, 1] ∧
-    (crun false .asCoded (cinit 2 1 f0) doubleApplySchedule).notes 0 = [1, 0] ∧
-    Quiescent (crun false .asCoded (cinit 2 1 f0) doubleApplySchedule) := by decide
+/-- three triggers: 0 and 2 read content B; the file is rewritten to C; 1 reads C.  Then 0 assigns B,
+1 assigns C, and 2 — holding the stale B — finds it different from C and assigns B a second time -/
+def staleReapplySchedule : List Ev :=
+  [.wc (.ok 2 0), .step 0, .step 0, .step 2, .step 2, .wc (.ok 3 0), .step 1, .step 1,
+   .step 0, .step 0, .step 1, .step 1, .step 2, .step 2]
 
-/-- as coded, the lost-update schedule ends — all triggers returned, trigger 1 read the current file —
-with the stale content running -/
+/-- **Before commit 8a38f8f** (hashes compared outside the lock) the double-apply schedule assigned
+file version 1 twice and notified the listener twice.  Kept as a record of what that commit removed. -/
+theorem concurrent_double_apply_before_8a38f8f :
+    (crun false .unlocked (cinit 2 1 f0) doubleApplySchedule).apvers = [1, 1] ∧
+    (crun false .unlocked (cinit 2 1 f0) doubleApplySchedule).notes 0 = [1, 0] ∧
+    Quiescent (crun false .unlocked (cinit 2 1 f0) doubleApplySchedule) := by decide
+
+/-- **Gone on the current code**: with compare-and-assign in one critical section, on every schedule
+no two successive assignments carry the same file version — triggers that read the same files never
+both apply them (`_partial`: this is the part of "never apply a change twice" the current code has). -/
+theorem concurrent_no_repeat_partial (aw : Bool) (n L : Nat) (f : Key) (sched : List Ev) :
+    NoAdjDup (crun aw .asCoded (cinit n L f) sched).apvers :=
+  (cinv_crun aw _ sched (cinv_init n L f)).nad
+
+/-- on the current code the old double-apply schedule applies once and notifies once -/
+example : (crun false .asCoded (cinit 2 1 f0) doubleApplySchedule).apvers = [1] ∧
+    (crun false .asCoded (cinit 2 1 f0) doubleApplySchedule).notes 0 = [0] := by decide
+
+/-- **Still there on the current code**: the lost-update schedule ends — all triggers returned,
+trigger 1 read the current file — with the stale content running. -/
 theorem concurrent_lost_update_witness :
     (crun false .asCoded (cinit 2 0 f0) lostUpdateSchedule).applied = (.ok 2 0, .ok 1 0) ∧
     (crun false .asCoded (cinit 2 0 f0) lostUpdateSchedule).file = (.ok 3 0, .ok 1 0) ∧
@@ -300,16 +328,20 @@ theorem concurrent_lost_update_witness :
   revert this
   decide
 
-/-- **concurrent_once is refuted for the code as it is** (hash comparison outside the lock). -/
-theorem concurrent_once_refuted : ¬ ConcurrentOnce false .asCoded := by
-  intro h
-  have := (h 2 1 f0 doubleApplySchedule (by decide)).1
-  revert this
-  decide
+/-- **Still there on the current code**: a content written once (file version 1) is assigned twice —
+versions 1, 2, 1 — and the listener is notified for it twice (by triggers 0 and 2); the run ends with
+the stale content although trigger 1 read the current file.  This is what the stress operation
+observes on the real code as `C27:concurrent-double-apply`. -/
+theorem concurrent_stale_reapply_witness :
+    (crun false .asCoded (cinit 3 1 f0) staleReapplySchedule).apvers = [1, 2, 1] ∧
+    (crun false .asCoded (cinit 3 1 f0) staleReapplySchedule).notes 0 = [2, 1, 0] ∧
+    Quiescent (crun false .asCoded (cinit 3 1 f0) staleReapplySchedule) ∧
+    (crun false .asCoded (cinit 3 1 f0) staleReapplySchedule).applied ≠
+      (crun false .asCoded (cinit 3 1 f0) staleReapplySchedule).file := by decide
 
-/-- Doing only the compare-and-assign under `f.mux` is not enough: the lost-update schedule still
-ends with the stale content (and applies versions out of order). -/
-theorem concurrent_once_cas_refuted : ¬ ConcurrentOnce false .cas := by
+/-- **concurrent_once is refuted for the code as it is**: compare-and-assign under `f.mux` is not
+enough while the files are read before the lock (versions are applied out of order). -/
+theorem concurrent_once_refuted : ¬ ConcurrentOnce false .asCoded := by
   intro h
   have := (h 2 0 f0 lostUpdateSchedule (by decide)).1
   revert this
